@@ -45,6 +45,10 @@ def vis_inputs(case):
     return res
 
 
+# commands that bring their inputs into an order of their own (maximum, minimum, sorting) before any arithmetic: bit-identical for every listing
+ORDER_CANONICAL = {"Minimum", "Maximum", "FuzzyOr", "FuzzyAnd", "FuzzySelectedUnion", "FuzzyXOr"}
+
+
 def same_outcome(o1, o2, tol=TOL):
     """two implementation outcomes agree: same error class, or same kind/dtype/shape/mask and close values"""
     if o1["status"] != o2["status"]:
@@ -260,7 +264,11 @@ def oracle_commutative(ctx, cmds, max_perms=6):
             twin = Case(case.cmd, params, [case.inputs[i] for i in perm])
             out2 = eems.run_impl(twin)
             ctx.count("order_twins")
-            d = same_outcome(out, out2)
+            # bit for bit where no rounding can depend on the order: commands that order their inputs themselves, and sums of binary fractions
+            exact = case.cmd in ORDER_CANONICAL or eems.dyadic_case(case)
+            if exact:
+                ctx.count("order_twins_exact")
+            d = same_outcome(out, out2, 0 if exact else TOL)
             if d:
                 ctx.fail("%s: input order %r gives a different outcome (%s)" % (case.cmd, perm, d), {"case": case.describe(), "order": list(perm)})
                 break
